@@ -2,7 +2,7 @@
    In the geometry-free model such maps act on the voxel list as a permutation combined with the
    insertion/removal of background voxels (0,0).  ASSD, the only geometry-dependent metric, is
    invariant under translations, flips, axis permutations and the enclosing box by Props/C07. *)
-From Pan Require Import Base.Common Model.MetricTable Model.Metrics Model.Matcher Proofs.Invariance.
+From Pan Require Import Base.Common Model.MetricTable Model.Metrics Model.Matcher Model.Pipeline Proofs.Invariance Proofs.PipelineInvariance.
 From Coq Require Import Permutation.
 Open Scope Z_scope.
 
@@ -21,6 +21,25 @@ Theorem C10_candidates_permutation_invariant : forall m a a', Permutation a a' -
 Proof. exact candidates_perm. Qed.
 Theorem C10_candidates_background_invariant : forall m a, candidates m a = candidates m (strip a).
 Proof. exact candidates_strip. Qed.
+
+(* END TO END (all counts, all IoU/Dice/RVD based results; ASSD through x, see C07): the result of the
+   whole pipeline -- every input type that reaches it as instance maps, every matcher, metric, threshold,
+   decision metric, handler -- is unchanged by any permutation of the voxels: flips, axis permutations,
+   any memory order *)
+Theorem C10_pipeline_permutation_invariant : forall x c a a', Permutation a a' -> pipeline x c a = pipeline x c a'.
+Proof. exact pipeline_perm. Qed.
+
+(* the evaluation phase (matched instances) depends only on the non-background voxels, up to order:
+   padding, translation in a larger array, cropping empty margins *)
+Theorem C10_evaluation_depends_on_foreground_only : forall x c a a',
+  Permutation (strip a) (strip a') -> eval_phase x c a = eval_phase x c a'.
+Proof. exact eval_phase_foreground. Qed.
+Theorem C10_matched_input_padding_invariant : forall x c a a', c_matcher c = 0 ->
+  Permutation (strip a) (strip a') -> pipeline x c a = pipeline x c a'.
+Proof. exact pipeline_matched_foreground. Qed.
+(* and the matcher sees the identical candidate list *)
+Theorem C10_candidate_list_padding_invariant : forall x m a, cand_list x m (strip a) = cand_list x m a.
+Proof. exact cand_list_strip. Qed.
 
 Example C10_nonvacuous :
   let a := [(0, 0); (1, 1); (1, 2); (0, 0); (2, 2)] in
